@@ -1,5 +1,11 @@
 package main
 
+import (
+	"fmt"
+
+	"golang.org/x/tools/go/ssa"
+)
+
 func init() { register("C06", checkC06) }
 
 // C06 — PNFT authorization: only current owners act on denoms and tokens.
@@ -9,6 +15,23 @@ func checkC06(p *Prog, r *Report) {
 	r.Trusted = []string{"cosmos-sdk v0.47.12 x/nft keeper"}
 	pnftAuthRules(p, r, "C06")
 	wireAnte(p, r, "C06")
+	checkModuleExtensionInterfaces(p, r, "C06", []string{"x/pnft"})
+	// ownership survives an export/import only if the export reads every class, every token and every owner record: the
+	// full iterators of the x/nft keeper, not its paginated gRPC queries (a nil page request means the first 100 entries)
+	if pexp := p.Func(Rel("x/pnft"), "ExportGenesis"); pexp != nil {
+		reach := p.ReachFrom([]*ssa.Function{pexp}, func(f *ssa.Function) bool { return InModule(f) && !p.IsGenerated(f) })
+		readsNft := map[string]bool{}
+		for _, f := range reach.Order {
+			if n, ok := isNftKeeperMethod(f); ok {
+				readsNft[n] = true
+			}
+		}
+		r.Check(readsNft["GetClasses"] && readsNft["GetNFTsOfClass"] && readsNft["GetOwner"], "WMC:C06:pnft.ExportGenesis#reads-class+token+owner",
+			"the export reads every denom (class), every token and every token's current owner through the x/nft keeper's full iterators", p.FnPos(pexp),
+			"GetClasses, GetNFTsOfClass, GetOwner", fmt.Sprintf("x/nft reads on the export path: %v — a paginated query (Classes, NFTs) with no page request returns the first 100 entries only: denoms beyond that vanish at import and their ids can be claimed by anyone", keysOf(readsNft)))
+	} else {
+		r.Fail("WMC:C06:pnft.ExportGenesis#anchor", "anchor", "x/pnft", "ExportGenesis not found")
+	}
 	// the owner every view (and therefore the genesis export, which is imported back as the ownership) reports is the stored
 	// owner record of that very token
 	pnftViewsAgree(p, r, func(rule, rest string) string { return rule + ":C06:" + rest })
